@@ -1,5 +1,7 @@
 package main
 
+import "github.com/RoaringBitmap/roaring/v2"
+
 func init() {
 	register(&Property{
 		ID: "C14", Level: "exploration", Builds: []string{"plain"},
@@ -8,6 +10,7 @@ func init() {
 		Units: []Unit{
 			{Name: "population", Quick: 1500, Thorough: 80000, Run: c14Pop},
 			{Name: "run-fragmenting-histories", Quick: 1500, Thorough: 80000, Run: c14RunHist},
+			{Name: "dense-low-keys-small-chunks", Quick: 1500, Thorough: 80000, Run: c14DenseLowKeys},
 		},
 	})
 }
@@ -73,4 +76,110 @@ func c14RunHist(c *Ctx) {
 		h = mix(h, hashStr(c.hist[len(c.hist)-1]))
 	}
 	c.Distinct(h)
+}
+
+// c14DenseLowKeys makes the bound tight: all chunk keys 0..n-1 are present (so that
+// ceil(x/65536) equals the number of stored chunks) and every chunk holds few values, reached by
+// small range / point / flip operations and by trimming run ends, so that a per-chunk excess of one
+// or two bytes is not absorbed by slack.
+func c14DenseLowKeys(c *Ctx) {
+	r := c.R
+	n := uint64(4 + r.Intn(60))
+	b := roaring.New()
+	m := NewISet()
+	bm := &BM{B: b, M: m}
+	style := r.Intn(4)
+	c.Step("dense keys 0..%d, style %d", n-1, style)
+	h := mix(n, uint64(style))
+	step := func(op string, f func(), upd func()) bool {
+		if c.Guard("dense/"+op, f) {
+			return false
+		}
+		upd()
+		if d := checkEq(b, m); d != "" {
+			c.Fail("content/after-"+op, "%s", d)
+			return false
+		}
+		return sizeBoundOracle(c, bm, "after-"+op, "b")
+	}
+	for k := uint64(0); k < n; k++ {
+		base := k << 16
+		off := r.Range(0, 65000)
+		w := []uint64{1, 2, 2, 2, 3, 4, 5}[r.Intn(7)]
+		switch style {
+		case 0: // small AddRange into an absent chunk
+			lo := base + off
+			c.Step("AddRange(%d,%d)", lo, lo+w)
+			if !step("AddRange", func() { b.AddRange(lo, lo+w) }, func() { m.AddRange(lo, lo+w-1) }) {
+				return
+			}
+		case 1: // range straddling the chunk border: few values on each side
+			if k+1 < n {
+				lo := base + 65536 - w
+				hi := base + 65536 + []uint64{1, 2, 3}[r.Intn(3)]
+				c.Step("AddRange(%d,%d)", lo, hi)
+				if !step("AddRange", func() { b.AddRange(lo, hi) }, func() { m.AddRange(lo, hi-1) }) {
+					return
+				}
+			} else {
+				c.Step("Add(%d)", base+off)
+				if !step("Add", func() { b.Add(uint32(base + off)) }, func() { m.Add(base + off) }) {
+					return
+				}
+			}
+		case 2: // Flip on an absent chunk
+			lo := base + off
+			c.Step("Flip(%d,%d)", lo, lo+w)
+			if !step("Flip", func() { b.Flip(lo, lo+w) }, func() { m.FlipRange(lo, lo+w-1) }) {
+				return
+			}
+		default: // several short runs, to be trimmed below
+			for j := uint64(0); j < 3+r.Range(0, 20); j++ {
+				lo := base + j*40 + r.Range(0, 5)
+				m.AddRange(lo, lo+2)
+				b.AddRange(lo, lo+3)
+			}
+		}
+	}
+	if style == 3 || r.Chance(0.3) {
+		c.Step("RunOptimize()")
+		if !step("RunOptimize", func() { b.RunOptimize() }, func() {}) {
+			return
+		}
+	}
+	// trimming phase: remove run / interval end points one by one (never a RunOptimize in between)
+	rounds := 1 + r.Intn(3)
+	for round := 0; round < rounds && !c.Failed(); round++ {
+		front := r.Chance(0.5)
+		ivs := append([]IV(nil), m.Intervals()...)
+		for _, v := range ivs {
+			if v.Hi == v.Lo && r.Chance(0.7) {
+				continue
+			}
+			x := v.Hi
+			if front {
+				x = v.Lo
+			}
+			op := []string{"Remove", "CheckedRemove", "RemoveRange", "Flip"}[r.Intn(4)]
+			c.Step("%s(%d)", op, x)
+			ok := step(op, func() {
+				switch op {
+				case "Remove":
+					b.Remove(uint32(x))
+				case "CheckedRemove":
+					b.CheckedRemove(uint32(x))
+				case "RemoveRange":
+					b.RemoveRange(x, x+1)
+				default:
+					b.Flip(x, x+1)
+				}
+			}, func() { m.Remove(x) })
+			if !ok {
+				return
+			}
+			h = mix(h, x)
+		}
+	}
+	c.Distinct(h)
+	c.Sample(map[string]any{"unit": "dense-low-keys-small-chunks", "case_seed": c.CaseSeed, "chunks": n, "style": style, "steps": firstN(c.hist, 8)})
 }
